@@ -3,6 +3,7 @@ package operations
 import (
 	"path"
 	"sort"
+	"strconv"
 	"strings"
 
 	"github.com/go-openapi/jsonpointer"
@@ -86,9 +87,19 @@ func GatherOperations(specDoc Provider, operationIDs []string) map[string]OpRef 
 			nm = opr.Key
 		}
 
-		oo, found := operations[nm]
-		if found && oo.Method != opr.Method && oo.Path != opr.Path {
+		if _, found := operations[nm]; found {
+			// another operation already goes by that name (duplicate id, or an id equal to a generated name)
 			nm = opr.Key
+		}
+
+		// distinct operations may still yield the same generated name (e.g. "/a-b" and "/a_b"):
+		// every operation must remain in the index, under a name of its own
+		for i := 1; ; i++ {
+			if _, found := operations[nm]; !found {
+				break
+			}
+
+			nm = opr.Key + strconv.Itoa(i)
 		}
 
 		if len(operationIDs) == 0 || swag.ContainsStrings(operationIDs, opr.ID) || swag.ContainsStrings(operationIDs, nm) {
